@@ -187,29 +187,37 @@ def _g5(ctx, rep, sd: Seeds):
 
 
 def _g3(rep, ts: Func):
+    """to_stream: None -> np.random, int -> fresh MT19937 generator, anything else -> the argument (whatever the control-flow spelling)"""
+    from .. import symsum
     p = ts.params[0]
-    ifs = [n for n in own_nodes(ts.node) if isinstance(n, ast.If)]
-    branches = {}
-    node = ifs[0] if ifs else None
-    while node is not None:
-        t = unparse(node.test).replace(" ", "")
-        val = next((unparse(s.value) for s in node.body if isinstance(s, ast.Assign)), None) or \
-            next((unparse(s.value) for s in node.body if isinstance(s, ast.Return)), None)
-        if t in ("%sisNone" % p,):
-            branches["none"] = val
-        elif t in ("type(%s)==int" % p, "isinstance(%s,int)" % p):
-            branches["int"] = val
-        else:
-            branches["?" + t] = val
-        if len(node.orelse) == 1 and isinstance(node.orelse[0], ast.If):
-            node = node.orelse[0]
-        else:
-            val = next((unparse(s.value) for s in node.orelse if isinstance(s, (ast.Assign, ast.Return))), None)
-            branches["else"] = val
-            node = None
+    cs = symsum.cases(ts)
+    if cs is None:
+        rep.undecided("G3", ts, "branches of to_stream", "too many paths")
+        return
+    none_atom = "%s is None" % p
+    int_atoms = ("type(%s) == int" % p, "isinstance(%s, int)" % p, "type(%s) is int" % p)
     want_int = ("np.random.Generator(np.random.MT19937(%s))" % p, "np.random.default_rng(%s)" % p)
-    ok = branches.get("none") == "np.random" and branches.get("int") in want_int and branches.get("else") == p and len(branches) == 3
-    rets = returns(ts)
-    ok = ok and all(unparse(r.value) in ("stream",) or unparse(r.value) in branches.values() for r in rets)
+    seen = {}
+    problems = []
+    for c in symsum.returning(cs):
+        v = unparse(c.value) if c.value is not None else None
+        atoms = {(t, pol) for t, pol, _ in c.guards}
+        if (none_atom, True) in atoms:
+            kind = "none"
+            ok = v == "np.random"
+        elif any((a, True) in atoms for a in int_atoms):
+            kind = "int"
+            ok = v in want_int
+        elif (none_atom, False) in atoms and any((a, False) in atoms for a in int_atoms):
+            kind = "else"
+            ok = v == p
+        else:
+            kind = "?" + " and ".join(("" if pol else "not ") + t for t, pol in sorted(atoms))
+            ok = False
+        seen[kind] = v
+        if not ok:
+            problems.append("%s -> %s" % (kind, v))
+    missing = [k for k in ("none", "int", "else") if k not in seen]
+    ok = not problems and not missing
     rep.check(ok, "G3", ts, "branches of to_stream", "None -> np.random; int -> fresh MT19937 generator; else -> argument",
-              "branches are %s" % branches, node=ts.node)
+              "branches are %s%s" % (seen, ("; missing: %s" % missing) if missing else ""), node=ts.node)
